@@ -43,7 +43,7 @@ def mk_param(d):
 
 class C20(Prop):
     id = 'C20'
-    theorems = ['C20.checked_function', 'C20.refused_function', 'C20.checked_constructor', 'C20.param_decl_is_def_plus_default', 'C20.decl_shape', 'C20.def_shape', 'C20.defSig_shape',
+    theorems = ['C20.checked_function', 'C20.pure_specifier_is_virtual', 'C20.refused_function', 'C20.checked_constructor', 'C20.param_decl_is_def_plus_default', 'C20.decl_shape', 'C20.def_shape', 'C20.defSig_shape',
                 'C20.def_ignores_decl_only_parts', 'C20.initialised_no_def',
                 'C20.constructor_def_ignores_decl_only_parts', 'C20.destructor_initialised_no_def',
                 'C20.namespace_balanced', 'C20.struct_balanced']
